@@ -106,7 +106,9 @@ def execute(prog, inputs, crash):
         box.clear()
         box['base'] = k
         loop = detloop.DetLoop()
-        asyncio.set_event_loop(loop)
+        # the restored process is given ITS loop; the current loop of the restoring thread varies (own / another / none)
+        loop_mode = ('own', 'foreign', 'none')[(len(segments) + len(str(prog))) % 3]
+        detloop.use_loop(loop, foreign={'own': False, 'foreign': True, 'none': 'none'}[loop_mode])
         try:
             q = copy_.unbundle(plumpy.LoadSaveContext(loop=loop))
         except Exception as e:  # noqa
@@ -114,7 +116,7 @@ def execute(prog, inputs, crash):
             final = None
             break
         restores += 1
-        d = pg.Drive(prog, process=q, loop=loop, on_entered=hook)
+        d = pg.Drive(prog, process=q, loop=loop, on_entered=hook, loop_mode=loop_mode)
         d.entered = [q.state.value]
         if todo and todo[0] == k:          # (only when boundary 0 and 1 coincide; not generated)
             todo.pop(0)
